@@ -23,7 +23,7 @@ def summary(src, filename):
     lv = suppview.lint_view(proj, src, filename)
     diags = [(c, m) for c, m, l, col in lv['raw']]
     order = layout.name_token_ordinals(src)
-    src_lines = src.splitlines()
+    src_lines = core.plines(src)
 
     def charpos(da):
         # ast columns are UTF-8 byte offsets, tokenize columns are characters
